@@ -26,3 +26,10 @@ check(
     "Scale-only units, non-zero finite values; model in exact rationals with relative tolerance 1e-11 x (2 + operations).",
     "4/C04",
 )
+check(
+    "C05",
+    "runtime monitoring: outcome monitor (must raise, never return) over an exhaustive category x foreign-unit sweep and generated incompatible operand pairs, operand/registry snapshots around failing calls, differential histories with vs without the failing calls",
+    "Held for every category x (look-alike units + rotating selection; thorough: all 1548 units) x 35 creation/conversion entry points, + - and ordering on simple and derived incompatible pairs (Scalar, Array container mixes, FixedArray, FractionScalar, Quantity, UnitDatabase.Sum/Subtract, both orders), and differential histories on twin databases.",
+    "'units/type error' is read as an exception derived from UnitsError, TypeError or ValueError; dimensionless operands and 'Unknown' are exempt as the statement says; the source side of a conversion is always valid.",
+    "4/C05",
+)
